@@ -159,6 +159,7 @@ fn call_side(s: &mut Side, op: &Value, rng: &mut rand::rngs::StdRng) -> Option<V
 	let mode = op["mode"].as_str().unwrap_or("case");
 	let bit = op["bit"].as_u64().unwrap_or(0) as usize;
 	let tok = s.token(kind, bit, rng)?;
+	let tokeq = tok == s.w.mask("w1");
 	let pre = observe(&mut s.w, "w1");
 	let api = s.api();
 	let mut roles = s.roles.clone();
@@ -187,7 +188,7 @@ fn call_side(s: &mut Side, op: &Value, rng: &mut rand::rngs::StdRng) -> Option<V
 	}
 	let retd = if ret.is_null() { "".to_string() } else { hex8(ret.to_string().as_bytes()) };
 	Some(json!({"res": res, "ret": retd, "retshow": ret, "detail": detail, "pre": pre, "post": post,
-		"changed": changed, "rr": rr, "tokgiven": tok.is_some()}))
+		"changed": changed, "rr": rr, "tokgiven": tok.is_some(), "tokeq": tokeq}))
 }
 
 fn ensure_snapshot(s: &mut Side, tag: &str) {
@@ -200,6 +201,15 @@ fn ensure_snapshot(s: &mut Side, tag: &str) {
 		}
 		s.snap = Some((snap, s.roles.clone()));
 		s.rr.clear();
+		reactivate(s);
+	}
+}
+
+/// snapshot/restore reopen the wallet, which resets the (volatile) active account
+fn reactivate(s: &mut Side) {
+	if s.roles.active != "" && s.roles.active != "default" {
+		let label = s.roles.active.clone();
+		let _ = s.w.set_active("w1", &label);
 	}
 }
 
@@ -211,6 +221,7 @@ fn restore(s: &mut Side) {
 			s.stale = old;
 		}
 		s.roles = roles.clone();
+		reactivate(s);
 	}
 }
 
@@ -238,6 +249,7 @@ fn reopen_side(s: &mut Side) -> Value {
 			s.stale = old;
 		}
 		s.w.wallets.get_mut("w1").unwrap().mask = mask;
+		s.roles.active.clear();
 	}
 	let post = observe(&mut s.w, "w1");
 	s.snap = None;
